@@ -53,10 +53,11 @@ def run():
         "cases_per_chip_and_path": kinds, "outcomes": outcomes, "behaviour_classes_covered": len(classes),
         "samples": samples,
         "exhaustive": thorough,
-        "explanation": ("direct RadioKind::get_rx_payload: all 256 lengths x 256 offsets x buffer sizes {0,1,12,64,255,256} x "
-                        "explicit/implicit header x 12 status bytes (all 8 command-status codes) for SX1262, and the same length/offset/"
-                        "buffer/header space for SX1276 and SX1272 (no status byte); LoRa::complete_rx and LorawanRadio::rx_single on a "
-                        "16x16 grid"
+        "explanation": ("RadioKind::get_rx_payload: all 256 lengths x 256 offsets x buffer sizes {0,1,12,64,255,256} x explicit/implicit "
+                        "header x 12 status bytes (all 8 command-status codes) for SX1262, and the same length/offset/buffer/header space "
+                        "for SX1276 and SX1272 (no status byte); LoRa::complete_rx: the same complete length/offset/buffer/header space "
+                        "for SX1262 (2 status bytes), SX1276 and SX1272; LorawanRadio::rx_single: 70 x 70 lengths/offsets (every 4th "
+                        "value + boundaries) x buffer sizes, explicit header"
                         if thorough else
                         "16 lengths x 16 offsets (boundaries 0,1,12,64,127/128,255 and wrap-around) x 6 buffer sizes x header "
                         "modes x status bytes, on RadioKind::get_rx_payload, LoRa::complete_rx and LorawanRadio::rx_single, "
@@ -71,8 +72,8 @@ def run():
         "the emulated chip memory holds the pattern (37*i+11) mod 256 (injective), the caller's buffer a canary; two runs with "
         "different canaries make 'untouched' observable; the LoRaWAN adapter is driven with the caller's slice standing for the "
         "MAC's RadioBuffer (explicit header only: that is what the adapter configures)",
-        "on thorough the exhaustive claim covers the finite space named in 'explanation' for the direct call path; the two "
-        "indirect call paths (LoRa::complete_rx, LorawanRadio::rx_single) are sampled on the 16x16 grid in both tiers",
+        "on thorough the exhaustive claim covers the finite space named in 'explanation' for RadioKind::get_rx_payload and "
+        "LoRa::complete_rx; LorawanRadio::rx_single is sampled (70x70 grid thorough, 16x16 quick)",
     ])
 
 
